@@ -345,6 +345,20 @@ def k_hod(R, rng):
         a = np.sort(rng.integers(0, 20, n)).astype(np.int64)
         b = rng.integers(-2, 25, 7).astype(np.int64)
         R.run('abacus_hod._searchsorted_parallel', dict(n=n), lambda: _searchsorted_parallel(a, b))
+    # NFW helpers: fewer points than threads (a tracer that is not requested has 0 points), more satellites than draws
+    for npts, T in ((0, 2), (1, 2), (1, 16), (5, 3), (40, 16), (16, 16)):
+        R.run('GRAND_HOD.getPointsOnSphere', dict(nPoints=npts, Nthread=T), lambda: G.getPointsOnSphere(npts, T),
+              nontrivial=npts > 0)
+    for nh, nsat, ndraw, T in ((0, 0, 5, 2), (1, 1, 5, 2), (3, 4, 5, 4), (2, 9, 5, 3), (4, 2, 3, 16)):
+        num_sat = np.full(nh, nsat, dtype=np.int64)
+        tot = int(num_sat.sum())
+        f = lambda v: np.full(nh, v, dtype=np.float64)          # noqa: E731
+        draw = np.linspace(0.05, 1.5, ndraw)
+        rd = G.getPointsOnSphere(tot, T) if tot else np.zeros((0, 3))
+        R.run('GRAND_HOD.compute_fast_NFW', dict(nhalo=nh, nsat_per_halo=nsat, ndraw=ndraw, Nthread=T),
+              lambda: G.compute_fast_NFW(draw, np.arange(nh, dtype=np.int64), f(0.0), f(1.0), f(2.0), f(10.0), f(20.0), f(30.0),
+                                         f(100.0), f(4.0), f(1e13), f(0.5), rd, num_sat, 1.0, 'rd_normal', T, 0.0, 1.0, 1.0),
+              nontrivial=tot > 0)
     # the two-pass kernels gen_cent / gen_sats through gen_gal_cat: empty tables, single rows, more threads than
     # rows, sizes not divisible by the thread count (an index fault inside a parallel kernel surfaces as SystemError)
     import hodgen10
